@@ -76,7 +76,7 @@ def run(v, tier, seed, replay=None):
         'rule': 'write sessions (incl. totals that are exact multiples of the container size, where the trailing empty container is the timing-sensitive spot) run with and without a pause before close() on the plain build and under seeded yield/sleep injection at every lock/unlock/wait: every file must be byte-identical to the schedule-free model; complete read sessions under perturbed schedules must deliver exactly the model\'s objects. Non-trivial = distinct session.',
         'timing_variants': [n for n, _ in variants], 'differences': nbad,
         'samples': ['FS <delay> ' + s['tail'][:100] for s in sess[:3]],
-        'theorems': ['C07_write_determinate', 'C07_worker_loops_as_modelled'],
-        'not_a_theorem_yet': 'read half (objects delivered in file order under every interleaving)',
+        'theorems': ['C07_write_determinate', 'C07_read_determinate', 'C07_read_complete', 'C07_read_example', 'C07_worker_loops_as_modelled'],
+        'not_a_theorem_yet': 'that the library parser, run as a reader program of the model, yields the schedule-free objects (decided by this run)',
     })
     return 'proof'
